@@ -1727,6 +1727,25 @@ func (w *world) findWritten() {
 			case *ast.SelectorExpr:
 				if sel, ok := pi.info.Selections[x]; ok && sel.Kind() == types.FieldVal {
 					w.written[originVar(sel.Obj().(*types.Var))] = true
+					// a promoted field (n.Val for n.Item.Val): the embedded value structs on the implicit
+					// path are written too — reading n.Item as a whole reads the written cell
+					if idx := sel.Index(); len(idx) > 1 {
+						t := sel.Recv()
+						for _, i := range idx[:len(idx)-1] {
+							if p, ok := t.Underlying().(*types.Pointer); ok {
+								t = p.Elem()
+							}
+							st, ok := t.Underlying().(*types.Struct)
+							if !ok || i >= st.NumFields() {
+								break
+							}
+							f := st.Field(i)
+							if _, isPtr := f.Type().Underlying().(*types.Pointer); !isPtr {
+								w.written[originVar(f)] = true
+							}
+							t = f.Type()
+						}
+					}
 					// an embedded value struct: writing a field of it writes the embedding field too
 					if _, isPtr := pi.info.Types[x.X].Type.Underlying().(*types.Pointer); !isPtr {
 						e = x.X
